@@ -228,6 +228,18 @@ def c08_grid(tier, seed):
             worst = max(worst, err - half)
             if err > half + slack: bad.append({"value": repr(v), "precision": p, "text": s, "error": str(err), "half_unit": str(half)}); break
         if bad: break
+    # numpy scalars as axis AND non-axis words through the public API: every word must still be a plain decimal
+    import io
+    from gscrib import GCodeBuilder
+    for val in (np.float32(1e-5), np.float16(0.25), np.int64(3), np.float64(1e-7)):
+        o = io.StringIO(); g = GCodeBuilder(output=o, decimal_places=5)
+        g.move(x=1.5, E=val, A=val); cases += 1       # (typeguard rejects numpy float32 as an axis coordinate; non-axis words accept it)
+        words = o.getvalue().split(";")[0].split()[1:]
+        if not all(re.match(r"^[A-Z]-?\d+(\.\d+)?$", w_) for w_ in words):
+            bad.append({"value": repr(val), "line": o.getvalue(), "why": "a numpy scalar parameter was not written as a plain decimal"})
+        try:
+            GCodeBuilder(output=io.StringIO()).move(x=1, E=np.float32("nan")); bad.append({"value": "np.float32(nan) as E", "why": "non-finite non-axis parameter was written"})
+        except ValueError: pass
     # non-finite values are rejected
     for v in (float("nan"), float("inf"), float("-inf"), np.float64("nan")):
         try:
@@ -242,7 +254,7 @@ def c08_grid(tier, seed):
 
 # ---------------------------------------------------------------------------------------------- C09 / C08: text <-> block bridge
 HOSTILE = ["hello", "", "  ", "a\nG1 X100", "a\r\nM3 S9000", "x\rG0 Z-5", "tab\tsep", "semi ; colon", "close ) paren ( open", "] } > \" ' */ /*",
-           "unicode   sep   par \x85 nel", "\x0b\x0c vt ff", "G1 X1 Y2 ; G28", "ünïcödé ☃", "%", "N10 G1 X5*71", ")\n(G1 X9)", "*/ G1 X7 /*", "{}", "{0}", "{text}"]
+           "unicode   sep   par \x85 nel", "\x0b\x0c vt ff", "G1 X1 Y2 ; G28", "ünïcödé ☃", "%", "N10 G1 X5*71", ")\n(G1 X9)", "*/ G1 X7 /*", "{}", "{0}", "{text}", "done **// G1 X99", "***///", "))", "]]", "a*\n/b", "*/*/", "' '' \"\""]
 
 
 @bounded("C09", "comment-confinement-end-to-end")
@@ -398,7 +410,12 @@ def _rand_shape(rnd, start):
     elif k == "helix": s.update(target=(cx + rnd.uniform(1, 30) * math.cos(a1), cy + rnd.uniform(1, 30) * math.sin(a1), sz + rnd.uniform(-5, 5)), center=(cx - sx, cy - sy), turns=rnd.randint(1, 3), c=(cx, cy))
     elif k == "spiral": s.update(target=(sx + rnd.uniform(2, 20), sy + rnd.uniform(2, 20), sz + rnd.uniform(-2, 2)), turns=rnd.randint(1, 3))
     elif k == "thread": s.update(target=(sx + rnd.uniform(2, 10), sy + rnd.uniform(-10, 10), sz + rnd.uniform(2, 8)), pitch=rnd.uniform(0.5, 2))
-    else: s.update(points=[(sx + rnd.uniform(-20, 20), sy + rnd.uniform(-20, 20), sz + rnd.uniform(-2, 2)) for _ in range(rnd.randint(2, 5))])
+    else:
+        pts = [(sx + rnd.uniform(-20, 20), sy + rnd.uniform(-20, 20), sz + rnd.uniform(-2, 2)) for _ in range(rnd.randint(2, 5))]
+        if rnd.random() < 0.4: pts.append(rnd.choice([start] + pts[:-1]))        # closed loops / revisited control points
+        s.update(points=pts)
+    if k == "arc" and rnd.random() < 0.4:                                         # steep helical arcs: Z travel dominates the planar length
+        t = s["target"]; s["target"] = (t[0], t[1], sz + rnd.choice([-1, 1]) * rnd.uniform(40, 200))
     return s
 
 
@@ -444,6 +461,7 @@ def _tracer_bounded(tier, seed):
             bad.append({"property": "C10", "shape": sh, "start": start, "why": "polyline does not visit exactly the given points"}); break
         # C12
         if sh["kind"] in ("arc", "circle", "arc_radius") and len(va) >= 4:
+            # (for steep helical arcs the chord/arc ratio is still ~1: the bound applies to the 3-D segment length)
             stats["c12_constant_speed"] += 1
             segs = [math.dist(p, q) for p, q in zip([start] + va[:-1], va)]
             if max(segs) > 1.05 * res + 1e-9 or min(segs[1:-1]) < 0.85 * res:
